@@ -210,6 +210,12 @@ func (e *env) snap() *snapshot {
 		for _, coin := range p.TotalStakingTokens {
 			addTo(s.rec, key4{7, kStaked, int64(p.Id), e.denID(coin.Denom)}, coin.Amount.BigInt())
 		}
+		// the model reads the share quantity of the redemption rule from the bank supply: it must equal the pool record
+		for _, coin := range p.TotalShareTokens {
+			if sup := app.BankKeeper.GetSupply(ctx, coin.Denom).Amount; !sup.Equal(coin.Amount) {
+				panic(fmt.Sprintf("pool %d: TotalShareTokens %s differs from the bank supply %s", p.Id, coin, sup))
+			}
+		}
 		if !p.Slashed.IsNil() && !p.Slashed.IsZero() {
 			s.sl[int64(p.Id)] = new(big.Int).Set(p.Slashed.BigInt())
 		}
